@@ -284,6 +284,31 @@ func runHB(c *Case) {
 		delivered = append(delivered, txs[n-1])
 		count = uint64(len(delivered))
 		dupRelevant = spy.relevant[hashes[n-1]]
+	case "dupn": // any repetition of the tail that keeps the merkle root (odd and even resulting counts)
+		var cands [][]*wire.MsgTx
+		for w := 1; w <= 4 && w <= n; w *= 2 {
+			tail := txs[n-w:]
+			cur := append([]*wire.MsgTx{}, txs...)
+			for rep := 1; rep <= 3; rep++ {
+				cur = append(cur, tail...)
+				var hs []bitcoin.Hash32
+				for _, tx := range cur {
+					hs = append(hs, *tx.TxHash())
+				}
+				if r := ownRoot(hs); r.Equal(&header.MerkleRoot) {
+					cands = append(cands, append([]*wire.MsgTx{}, cur...))
+				}
+			}
+		}
+		if len(cands) > 0 {
+			delivered = cands[c.K%len(cands)]
+			count = uint64(len(delivered))
+			for _, tx := range delivered[n:] {
+				if spy.relevant[*tx.TxHash()] {
+					dupRelevant = true
+				}
+			}
+		}
 	case "dup2": // same merkle root when the level above the leaves has an odd length > 1
 		if n >= 2 {
 			delivered = append(delivered, txs[n-2], txs[n-1])
@@ -349,7 +374,7 @@ func runHB(c *Case) {
 	spy.Lock()
 	defer spy.Unlock()
 	in := fmt.Sprintf("(mkBlockIn %s %d %s %s %s %s %s %s %s %s %s)", coqfmt.Bool(c.Corrupt != "wronghdr"), count, coqfmt.List(ids),
-		coqfmt.List(rel), coqfmt.Bool(rootOK), coqfmt.Bool(!(rootOK && dupRelevant && (c.Corrupt == "dup1" || c.Corrupt == "dup2"))),
+		coqfmt.List(rel), coqfmt.Bool(rootOK), coqfmt.Bool(!(rootOK && dupRelevant && (c.Corrupt == "dup1" || c.Corrupt == "dup2" || c.Corrupt == "dupn"))),
 		optNat(spy.procFail, spy.procFail >= 0), optNat(spy.cancelAt, spy.cancelAt != 0), coqfmt.Bool(spy.cbFail),
 		optNat(spy.cfFail, spy.cfFail >= 0), coqfmt.Bool(spy.storeFail))
 	c.coq = fmt.Sprintf("(mkHCase %s\n  %s %d %s)", in, coqfmt.List(spy.effects), result, coqfmt.Bool(spy.verified))
@@ -904,7 +929,7 @@ func main() {
 			}
 			cases = append(cases, Case{ID: len(cases), Kind: "dl", Ops: ops})
 		}
-		corrupts := []string{"none", "none", "drop", "add", "swap", "alter", "count+1", "count-1", "cut", "wronghdr", "dup1", "dup2"}
+		corrupts := []string{"none", "none", "drop", "add", "swap", "alter", "count+1", "count-1", "cut", "wronghdr", "dup1", "dup2", "dupn", "dupn"}
 		faults := []string{"", "", "", "procfail", "cancel", "cbfail", "cffail", "storefail"}
 		if *profile == "C04" {
 			// every tree width 1..17 with every corruption, then random blocks up to 70 transactions
